@@ -16,6 +16,7 @@ import ModVerif.Proofs.EditModel
 import ModVerif.Proofs.EditRefineExact
 import ModVerif.Proofs.EditRefineSorted
 import ModVerif.Proofs.EditRefineInvBulk
+import ModVerif.Proofs.EditRefineInvWork
 namespace ModVerif.Props.C16
 open ModVerif ModVerif.EditSpec ModVerif.Modfile
 
@@ -269,6 +270,27 @@ example :
          ⟨B "example.com/b", B "v1.2.3", false⟩]
        e.f.require.all Edit.liveRq && (Edit.view e.f.syn.stmts).all (fun v => decide (Edit.MarkerSettable v.suffix)) &&
          (Edit.setRequire e want (Edit.permOf true)).isOk && (Edit.setRequire e want (Edit.permOf false)).isOk
+     | _ => false) = true := by decide +kernel
+
+/-- **SetUse on the syntax tree.**  From a go.work state satisfying the invariant with every typed use live, after
+    `SetUse dirs` + Cleanup, for EVERY map-iteration order: the invariant holds again, the tree has a live line
+    `use <AutoQuoted dir>` for every requested directory, and every live `use` line of the tree is one of them. -/
+theorem setUse_tree_exact (e e' : Edit.EWork) (dirs : List (Bytes × Bytes)) (perm : List (Bytes × Bytes) → List (Bytes × Bytes))
+    (hperm : ∀ l, (perm l).Perm l) (hg : Edit.GoodUse dirs) (hi : Edit.InvW e) (hlive : ∀ u ∈ e.f.use, Edit.liveU u = true)
+    (h : Edit.setUse e dirs perm = .ok e') :
+    Edit.InvW (Edit.workCleanup e') ∧
+    (∀ d ∈ dirs, ∃ v ∈ Edit.view (Edit.workCleanup e').f.syn.stmts, v.toks = [B "use", autoQuote d.1]) ∧
+    (∀ v ∈ Edit.view (Edit.workCleanup e').f.syn.stmts, v.toks.head? = some (B "use") →
+      ∃ d ∈ dirs, v.toks = [B "use", autoQuote d.1]) :=
+  Edit.setUse_tree_exact e e' dirs perm hperm hg hi hlive h
+
+/-- non-vacuity of `setUse_tree_exact` (invariant: `Props.C15.InvW_empty` + `typed_eq_tree_work`) -/
+example :
+    (match Edit.runOps Edit.applyWork (Edit.loadWork {})
+        [.addGo (B "1.21"), .addUse (B "./a") [], .addNewUse (B "./b") [], .cleanup] [] 0 with
+     | .done e res => res.all id && e.f.use.all Edit.liveU &&
+         (Edit.setUse e [(B "./c", []), (B "./a", [])] (Edit.permOf true)).isOk &&
+         (Edit.setUse e [(B "./c", []), (B "./a", [])] (Edit.permOf false)).isOk
      | _ => false) = true := by decide +kernel
 
 /-- Recorded finding (known_findings.json, `c16-indirect:remainder-is-marker`): clearing the indirect marker rewrites
